@@ -19,6 +19,9 @@ type NetAttester struct {
 	Signer     SignerSpec   `json:"signer"`
 	Claims     []ClaimsDesc `json:"claims"`
 	ViaSetters bool         `json:"via_setters,omitempty"`
+	// Decoded: the attester obtains its claims by decoding their CBOR encoding
+	// (e.g. a template token) instead of building them
+	Decoded bool `json:"decoded,omitempty"`
 }
 
 type NetCfg struct {
@@ -35,6 +38,7 @@ type netSlot struct {
 	claims    int
 	faults    int
 	emitOK    bool
+	key       int // the key the attester held when it emitted this message
 	crafted   bool
 	claimsObs string // getters of the claims that were signed, rendered at emit time
 }
@@ -99,7 +103,7 @@ func (netWorld) Gen(prop, tier string, idx int, r *Rng) *Trace {
 	nAtt := r.Range(2, 5)
 	fams := []string{"p1", "p2", "p1", "p2", "xp2", "xw"}
 	for i := 0; i < nAtt; i++ {
-		a := NetAttester{Signer: genSignerSpec(r, prop == "C02" && tier == "quick"), ViaSetters: r.Chance(1, 3)}
+		a := NetAttester{Signer: genSignerSpec(r, prop == "C02" && tier == "quick"), ViaSetters: r.Chance(1, 3), Decoded: r.Chance(1, 4)}
 		if i > 0 && r.Chance(1, 3) {
 			// a second attester on the same algorithm with another key: the hard misroute case
 			a.Signer.Alg = cfg.Attesters[0].Signer.Alg
@@ -126,6 +130,10 @@ func (netWorld) Gen(prop, tier string, idx int, r *Rng) *Trace {
 		}
 	}
 	nMsg := r.Range(2, 6)
+	curKey := make([]int, nAtt) // the key each attester holds right now (rekey changes it)
+	for i := range curKey {
+		curKey[i] = cfg.Attesters[i].Signer.Key
+	}
 	var labels []string
 	nextLabel := 0
 	newLabel := func() string {
@@ -141,16 +149,28 @@ func (netWorld) Gen(prop, tier string, idx int, r *Rng) *Trace {
 			// the attester's reused Evidence first decodes somebody else's token
 			ops = append(ops, Op{K: "absorb", A: ai, T: labels[r.Intn(len(labels))]})
 		}
-		ops = append(ops, Op{K: "emit", S: l, A: ai, B: r.Intn(len(att.Claims)), C: r.Intn(3)})
+		ci := r.Intn(len(att.Claims))
+		if r.Chance(1, 4) {
+			// the attester updates a software component of its claims in place (through the component's own setters)
+			ops = append(ops, Op{K: "tweak", A: ai, B: ci, C: r.Intn(4), D: r.Intn(1000)})
+		}
+		if prop == "C03" && r.Chance(1, 5) {
+			// the attester is re-provisioned with another key of the same algorithm and goes on using its Evidence
+			ks := keysForAlg(att.Signer.Alg)
+			nk := ks[r.Intn(len(ks))]
+			ops = append(ops, Op{K: "rekey", A: ai, B: nk})
+			curKey[ai] = nk
+		}
+		ops = append(ops, Op{K: "emit", S: l, A: ai, B: ci, C: r.Intn(3)})
 		labels = append(labels, l)
 		// the fault-free arm
-		ops = append(ops, Op{K: "deliver", T: l, B: att.Signer.Key, C: r.Intn(3)})
+		ops = append(ops, Op{K: "deliver", T: l, B: curKey[ai], C: r.Intn(3)})
 		if prop == "C03" {
 			if r.Chance(1, 4) {
-				ops = append(ops, Op{K: "deliver", T: l, B: att.Signer.Key, C: r.Intn(3)}) // duplicate delivery
+				ops = append(ops, Op{K: "deliver", T: l, B: curKey[ai], C: r.Intn(3)}) // duplicate delivery
 			}
 			if r.Chance(1, 4) {
-				ops = append(ops, Op{K: "deliver", T: l, B: wrongKeyFor(r, att.Signer), C: r.Intn(3)})
+				ops = append(ops, Op{K: "deliver", T: l, B: wrongKeyFor(r, SignerSpec{Alg: att.Signer.Alg, Key: curKey[ai]}), C: r.Intn(3)})
 			}
 			continue
 		}
@@ -167,9 +187,9 @@ func (netWorld) Gen(prop, tier string, idx int, r *Rng) *Trace {
 				}
 				ops = append(ops, fo)
 			}
-			key := att.Signer.Key
+			key := curKey[ai]
 			if r.Chance(1, 5) {
-				key = wrongKeyFor(r, att.Signer)
+				key = wrongKeyFor(r, SignerSpec{Alg: att.Signer.Alg, Key: curKey[ai]})
 			}
 			ops = append(ops, Op{K: "deliver", T: cl, B: key, C: r.Intn(3)})
 		}
@@ -177,7 +197,7 @@ func (netWorld) Gen(prop, tier string, idx int, r *Rng) *Trace {
 		if r.Chance(1, 3) {
 			cl := newLabel()
 			ops = append(ops, Op{K: "craft", S: cl, A: ai, B: r.Intn(len(att.Claims)), C: r.Intn(craftVariants)})
-			ops = append(ops, Op{K: "deliver", T: cl, B: att.Signer.Key, C: r.Intn(3)})
+			ops = append(ops, Op{K: "deliver", T: cl, B: curKey[ai], C: r.Intn(3)})
 		}
 		// the attester's own signer fails; nothing without a signature may verify afterwards
 		if r.Chance(1, 4) {
@@ -185,7 +205,7 @@ func (netWorld) Gen(prop, tier string, idx int, r *Rng) *Trace {
 		}
 		// misroute the genuine token
 		if r.Chance(2, 3) {
-			ops = append(ops, Op{K: "deliver", T: l, B: wrongKeyFor(r, att.Signer), C: r.Intn(3)})
+			ops = append(ops, Op{K: "deliver", T: l, B: wrongKeyFor(r, SignerSpec{Alg: att.Signer.Alg, Key: curKey[ai]}), C: r.Intn(3)})
 		}
 	}
 	cj, _ := json.Marshal(cfg)
@@ -289,6 +309,7 @@ func (netWorld) Exec(prop string, t *Trace) *Result {
 		live []psatoken.IClaims
 		ev   *psatoken.Evidence
 		hs   cose.Signer
+		spec SignerSpec // the key it holds right now
 	}
 	atts := make([]*attState, len(cfg.Attesters))
 	for i := range cfg.Attesters {
@@ -305,6 +326,16 @@ func (netWorld) Exec(prop string, t *Trace) *Result {
 			if err != nil {
 				c = nil
 			}
+			if c != nil && a.Decoded {
+				func() {
+					defer func() { _ = recover() }()
+					if b, eerr := psatoken.EncodeClaimsToCBOR(c); eerr == nil {
+						if d, derr := psatoken.DecodeClaimsFromCBOR(b); derr == nil {
+							c = d
+						}
+					}
+				}()
+			}
 			st.live = append(st.live, c)
 		}
 		hs, err := healthySigner(a.Signer)
@@ -313,6 +344,7 @@ func (netWorld) Exec(prop string, t *Trace) *Result {
 			return res
 		}
 		st.hs = hs
+		st.spec = a.Signer
 		atts[i] = st
 	}
 	led := ledger{}
@@ -431,10 +463,10 @@ func (netWorld) Exec(prop string, t *Trace) *Result {
 				}()
 			}
 		} else {
-			if c03 && !damaged && s.emitOK && key == cfg.Attesters[s.att].Signer.Key {
+			if c03 && !damaged && s.emitOK && key == s.key {
 				res.violate("C03", "genuine-token-rejected", "", i, "un-damaged token rejected by the verifier holding the signer's key (decode: %v, verify: %v)", derr, verr)
 			}
-			if !damaged && key != cfg.Attesters[s.att].Signer.Key {
+			if !damaged && key != s.key {
 				res.Probes["misroute_rejected"]++
 			}
 		}
@@ -449,7 +481,7 @@ func (netWorld) Exec(prop string, t *Trace) *Result {
 				break
 			}
 			st := atts[op.A]
-			spec := cfg.Attesters[op.A].Signer
+			spec := atts[op.A].spec
 			if op.B < 0 || op.B >= len(st.live) || st.live[op.B] == nil {
 				res.Probes["emit_unbuildable"]++
 				break
@@ -478,7 +510,7 @@ func (netWorld) Exec(prop string, t *Trace) *Result {
 				}
 			}
 			res.logf("%d emit att=%d claims=%d mode=%d err=%s tok=%x", i, op.A, op.B, op.C%3, okOrErr(err), tok)
-			s := &netSlot{att: op.A, claims: op.B, claimsObs: getterObs(c)}
+			s := &netSlot{att: op.A, claims: op.B, claimsObs: getterObs(c), key: spec.Key}
 			if op.S != "" {
 				slots[op.S] = s
 			}
@@ -544,12 +576,60 @@ func (netWorld) Exec(prop string, t *Trace) *Result {
 				roundTrips++
 				res.Probes["round_trip_ok"]++
 			}
+		case "rekey":
+			if op.A < 0 || op.A >= len(atts) {
+				break
+			}
+			st := atts[op.A]
+			ns := SignerSpec{Alg: st.spec.Alg, Key: op.B}
+			ok := false
+			for _, k := range keysForAlg(ns.Alg) {
+				if k == ns.Key {
+					ok = true
+				}
+			}
+			if !ok {
+				break
+			}
+			hs, err := healthySigner(ns)
+			if err != nil {
+				break
+			}
+			st.hs, st.spec = hs, ns
+			res.Probes["attester_rekeyed"]++
+			res.logf("%d rekey att=%d key=%d", i, op.A, op.B)
+		case "tweak":
+			if op.A < 0 || op.A >= len(atts) {
+				break
+			}
+			st := atts[op.A]
+			if op.B < 0 || op.B >= len(st.live) || st.live[op.B] == nil {
+				break
+			}
+			func() {
+				defer func() { _ = recover() }()
+				scs, err := st.live[op.B].GetSoftwareComponents()
+				if err != nil || len(scs) == 0 {
+					return
+				}
+				sc := scs[abs(op.C)%len(scs)]
+				switch abs(op.C) % 3 {
+				case 0:
+					_ = sc.SetVersion(fmt.Sprintf("tweaked-%d", op.D))
+				case 1:
+					_ = sc.SetMeasurementDesc(fmt.Sprintf("tweaked-%d", op.D))
+				default:
+					_ = sc.SetSignerID(NewRng(uint64(op.D)).Bytes(48))
+				}
+				res.Probes["component_tweaked_in_place"]++
+			}()
+			res.logf("%d tweak att=%d claims=%d", i, op.A, op.B)
 		case "failsign":
 			if op.A < 0 || op.A >= len(atts) {
 				break
 			}
 			st := atts[op.A]
-			spec := cfg.Attesters[op.A].Signer
+			spec := atts[op.A].spec
 			if op.B < 0 || op.B >= len(st.live) || st.live[op.B] == nil {
 				break
 			}
@@ -589,7 +669,7 @@ func (netWorld) Exec(prop string, t *Trace) *Result {
 				break
 			}
 			st := atts[op.A]
-			spec := cfg.Attesters[op.A].Signer
+			spec := atts[op.A].spec
 			if op.B < 0 || op.B >= len(st.live) || st.live[op.B] == nil {
 				break
 			}
@@ -602,7 +682,7 @@ func (netWorld) Exec(prop string, t *Trace) *Result {
 				res.Fatal = "craft: " + cerr.Error()
 				return res
 			}
-			s := &netSlot{att: op.A, claims: op.B, orig: tok, cur: append([]byte{}, tok...), crafted: true}
+			s := &netSlot{att: op.A, claims: op.B, orig: tok, cur: append([]byte{}, tok...), crafted: true, key: spec.Key}
 			if genuine {
 				if _, triple, ok := tripleOf(tok); ok {
 					led.add(spec.Key, triple)
@@ -644,7 +724,7 @@ func (netWorld) Exec(prop string, t *Trace) *Result {
 			if s == nil || s.cur == nil {
 				break
 			}
-			if op.B != cfg.Attesters[s.att].Signer.Key {
+			if op.B != s.key {
 				res.Faults["net.misroute"]++
 			}
 			deliver(i, s.cur, op.B, op.C, s, false)
